@@ -45,6 +45,9 @@ OBLIGATIONS = [
        functions=('cds_lfht_resize', '_do_cds_lfht_resize', 'resize_target_update_count'), native_custom=replay_resize, small=True),
 ]
 
+OBLIGATIONS.append(Ob(name='C09.O2.resize_retarget', harness='C09/retarget.c', entry='h_retarget', mode='legacy', defines=D, unwind=3, min_covers=4, checks=('--bounds-check', '--signed-overflow-check', '--div-by-zero-check'), timeout=300,
+    replace=('_do_cds_lfht_grow', '_do_cds_lfht_shrink'), functions=('_do_cds_lfht_resize',),
+    desc='_do_cds_lfht_resize when the target moves during a pass (second cds_lfht_resize or a lazy resize: they only store resize_target), for all power-of-two sizes and targets: every pass of the re-do loop starts from the CURRENT size and target, the loop ends with size == latest target after at most two passes (unwinding assertion)'))
 OBLIGATIONS.append(Ob(name='C09.O4.partition_helper', harness='C09/partition.c', entry='h_partition', defines=D, mode='legacy', replace=('cds_lfht_get_count_order_ulong',), unwind=18, min_covers=5, checks=('--bounds-check', '--signed-overflow-check', '--div-by-zero-check'), timeout=600,
     functions=('partition_resize_helper',),
     desc='partition_resize_helper for every len = 2^k (k <= 40), every CPU mask, work-array allocation failure and pthread_create failing at ANY worker: the ranges given to the workers plus the caller\'s fallback cover [0,len) consecutively - every bucket index exactly once; workers joined, signals blocked during creation, mask restored, work array freed once'))
